@@ -170,7 +170,7 @@ func Main() {
 	// work units: (target, part); heavy targets are split into parts that
 	// partition the enumerated items by hash of their canonical form
 	type unit struct {
-		t          *Target
+		t         *Target
 		part, of_ int
 	}
 	var units []unit
